@@ -74,7 +74,13 @@ func (a *Admin) Notify(command string) (string, error) {
 		debug.DumpStack(true, "stackinfo", "tars.dumpstack:")
 		return fmt.Sprintf("%s succ", command), nil
 	case "tars.loadconfig":
+		if len(cmd) < 2 {
+			return fmt.Sprintf("%s failed: missing file name!", command), nil
+		}
 		cfg := a.app.ServerConfig()
+		if cfg.Config == "" {
+			return fmt.Sprintf("%s failed: no config object configured!", command), nil
+		}
 		remoteConf := NewRConf(cfg.App, cfg.Server, cfg.BasePath)
 		_, err := remoteConf.GetConfig(cmd[1])
 		if err != nil {
